@@ -9,7 +9,13 @@ A further configuration dimension: the same pairs of runs with a coordinate tran
 scale, mirror, about a pivot or not) installed on the builder before the toolpath starts - random toolpaths of every
 shape, and rectilinear toolpaths traced one axis at a time on a small lattice, where a coordinate of the image of a
 waypoint often coincides with a coordinate of another waypoint.  The builder model has no transformer: those pairs are
-run on the implementation and judged by the oracle only (`xform` lines are harness-only)."""
+run on the implementation and judged by the oracle only (`xform` lines are harness-only).
+
+Another one: the same pairs of runs on the base class `gscrib.GCodeCore` used directly (its own `set_distance_mode`, no state
+object, no tracer: moves, rapids, absolute-bypass moves, mode contexts), the mode of each run selected - and re-selected along the
+toolpath - by enum member, by documented value or by a look-alike spelling of the mode's name (one the tree under test refuses
+with ValueError is skipped, one it accepts is used); waypoints are handed over as offsets whenever the object reports relative
+mode.  The builder model describes a `GCodeBuilder`: implementation and oracle only (`class core` histories are harness-only)."""
 from __future__ import annotations
 
 from fractions import Fraction
@@ -197,6 +203,8 @@ def apply_xform(g, line):
 
 def run_impl_any(lines):
     """`bc.run_impl`, also for histories with `xform` lines (configuration only: they write nothing and have no record)"""
+    if lines and lines[0] == CORE_MARK:
+        return run_core(lines)
     if not any(ln.startswith("xform ") for ln in lines):
         return bc.run_impl(lines)
     im = Impl(5)
@@ -276,6 +284,157 @@ XF_CORPUS = [
      (L(5, 0, 0), [("ctx", L(None, 5, None), "abs"), ("move", L(10, None, None), None), ("ctx", L(None, 10, None), "rel"),
                    ("move", L(0, None, None), None), ("move", L(None, 0, None), None)], "cw", Fraction(1))),
 ]
+
+
+# ------------------------------------------------------------------ the base class used directly (implementation + oracle only)
+CORE_MARK = "class core"
+# spellings a caller might try for each mode besides the enum member ("@") and the documented value
+LOOKALIKE = {
+    "rel": ["rel", "inc", "incremental", "incr", "increment", "RELATIVE", "Relative", "G91", "g91", "91", "r", "relative ", " relative",
+            "rel.", "relative mode", "delta", "offset", "DistanceMode.RELATIVE"],
+    "abs": ["abs", "ABSOLUTE", "Absolute", "G90", "g90", "90", "a", "absolute ", " absolute", "abs.", "absolute mode",
+            "DistanceMode.ABSOLUTE"],
+}
+DOCUMENTED = {"rel": "relative", "abs": "absolute"}
+
+
+def gen_spellings(r, want):
+    """how one mode selection is spelled: the candidates are tried in order, the last one is always a documented form"""
+    how = r.choice(["member", "value", "look-alike", "look-alike"])
+    if how == "member":
+        return ["@"]
+    if how == "value":
+        return [DOCUMENTED[want]]
+    return r.sample(LOOKALIKE[want], r.randint(1, 3)) + [r.choice(["@", DOCUMENTED[want]])]
+
+
+def gen_core_path(R):
+    """a logical toolpath for `GCodeCore`: (start, how the machine gets there, segments); every target is an absolute waypoint"""
+    r = R.rng
+    start = (fr(r), fr(r), fr(r))
+    segs = []
+    for _ in range(r.randint(2, 8)):
+        k = r.choice(["move", "move", "move", "rapid", "rapid", "moveabs", "rapidabs", "ctx", "ctx", "ctxnest", "polyline", "reselect",
+                      "reselect"])
+        if k in ("move", "rapid", "moveabs", "rapidabs"):
+            t = tuple(fr(r) if r.random() < 0.7 else None for _ in range(3))
+            if all(v is None for v in t):
+                t = (None, fr(r), None)
+            segs.append((k, t, None))
+        elif k == "polyline":           # no tracer on the base class: a polyline is its moves
+            segs += [("move", (fr(r), fr(r), fr(r)), None) for _ in range(r.randint(2, 4))]
+        elif k == "ctx":
+            segs.append(("ctx", [(r.choice(["move", "rapid"]), (fr(r), fr(r), fr(r) if r.random() < 0.5 else None))
+                                 for _ in range(r.randint(1, 3))], r.choice(["abs", "rel"])))
+        elif k == "ctxnest":
+            segs.append(("ctx", [("move", (fr(r), fr(r), fr(r))), (r.choice(["moveabs", "rapidabs"]), (fr(r), fr(r), None)),
+                                 ("move", (fr(r), None, fr(r)))], r.choice(["abs", "rel"])))
+        else:
+            # the run's mode is selected again (a caller that states the mode at the top of every section of a program)
+            segs.append(("reselect", None, {m: gen_spellings(r, m) for m in ("abs", "rel")}))
+    first = {"abs": gen_spellings(r, "abs") if r.random() < 0.6 else None, "rel": gen_spellings(r, "rel")}
+    return (start, r.choice(["setaxis", "rapid", "rapidabs"]), first, segs)
+
+
+def core_lines(path, relative: bool):
+    import json
+    start, arrive, first, segs = path
+    which = "rel" if relative else "abs"
+    pt = lambda t: " ".join(f"{a}={show(v)}" for a, v in zip("xyz", t) if v is not None)
+    out = [CORE_MARK, f"{arrive} {pt(start)}"]          # the object starts in absolute mode: `start` is where the machine goes
+    if first[which] is not None:
+        out.append(f"mode {which} " + json.dumps(first[which]))
+    for k, t, extra in segs:
+        if k == "reselect":
+            out.append(f"mode {which} " + json.dumps(extra[which]))
+        elif k == "ctx":
+            out += ["enter " + extra] + [f"{op} {pt(p)}" for op, p in t] + ["exit"]
+        else:
+            out.append(f"{k} {pt(t)}")
+    return out
+
+
+def run_core(lines):
+    """one history on a bare `GCodeCore`.  `move` / `rapid` lines carry the absolute waypoint; it is handed to the object as it is
+    while the object reports absolute mode and as the offset from the previous waypoint while it reports relative mode.
+    Records carry `out`, `stmts` and `rel` only."""
+    import json
+    from gscrib import GCodeCore
+    from gscrib.enums import DistanceMode
+    from .builder_impl import Recorder, canon_stmt, _num
+    rec = Recorder()
+    g = GCodeCore(output=None, print_lines=False, decimal_places=5, line_endings="\n")
+    g.add_writer(rec.make())
+    member = {"rel": DistanceMode.RELATIVE, "abs": DistanceMode.ABSOLUTE}
+    cur = [None, None, None]
+    ctx, recs, used = [], [], []
+    for ln in lines[1:]:
+        n0 = len(rec.chunks)
+        op, _, rest = ln.partition(" ")
+        out = "ok"
+        try:
+            if op == "mode":
+                want, _, cands = rest.partition(" ")
+                for c in json.loads(cands):
+                    try:
+                        g.set_distance_mode(member[want] if c == "@" else c)
+                    except ValueError:
+                        used.append("refused")
+                        continue                    # a spelling this tree does not know
+                    used.append("member" if c == "@" else "value" if c == DOCUMENTED[want] else "look-alike:" + c)
+                    if bool(g.distance_mode.is_relative) == (want == "rel"):
+                        break
+                else:
+                    raise RuntimeError(f"harness: no candidate of {ln!r} selected the {want} mode")
+            elif op == "enter":
+                cm = g.relative_mode() if rest == "rel" else g.absolute_mode()
+                cm.__enter__()
+                ctx.append(cm)
+            elif op == "exit":
+                ctx.pop().__exit__(None, None, None)
+            else:
+                t = {w.split("=")[0]: Fraction(w.split("=")[1]) for w in rest.split()}
+                t = [t.get(a) for a in "xyz"]
+                name = {"setaxis": "set_axis", "moveabs": "move_absolute", "rapidabs": "rapid_absolute"}.get(op, op)
+                if op in ("move", "rapid") and g.distance_mode.is_relative:
+                    args = {a: _num(v - c) for a, v, c in zip("xyz", t, cur) if v is not None}
+                else:
+                    args = {a: _num(v) for a, v in zip("xyz", t) if v is not None}
+                getattr(g, name)(**args)
+                cur = [c if v is None else v for c, v in zip(cur, t)]
+        except RuntimeError:
+            raise
+        except Exception as e:  # noqa
+            out = type(e).__name__
+        text = b"".join(rec.chunks[n0:]).decode("utf-8")
+        stmts = [canon_stmt(l) for l in text.split("\n")[:-1]] if text else []
+        recs.append(f"out={out} stmts={';'.join(stmts) if stmts else '-'} rel={int(bool(g.distance_mode.is_relative))}")
+    while ctx:
+        ctx.pop().__exit__(None, None, None)
+    return lines, recs, used
+
+
+CORE_CORPUS = [
+    # a square and a diagonal, the mode stated by a short name first
+    (L(0, 0, 0), "rapid", {"abs": ["abs", "absolute"], "rel": ["rel", "relative"]},
+     [("move", L(10, None, None), None), ("move", L(None, 10, None), None), ("rapid", L(0, 10, -1), None), ("move", L(5, 5, -1), None),
+      ("moveabs", L(20, 20, 0), None), ("move", L(0, 0, None), None)]),
+    # the mode stated again before every leg, each time spelled differently; a leg inside a context
+    (L(2, 3, 1), "setaxis", {"abs": None, "rel": ["RELATIVE", "G91", "incremental", "@"]},
+     [("move", L(4, 3, 1), None), ("reselect", None, {"abs": ["G90", "Absolute", "@"], "rel": ["inc", "Relative", "relative"]}),
+      ("move", L(4, 6, None), None), ("ctx", [("move", L(1, 1, 0))], "abs"), ("move", L(2, 3, 1), None)]),
+]
+
+
+def run_core_case(R, path, label):
+    la, lb = core_lines(path, False), core_lines(path, True)
+    A, B = run_core(la), run_core(lb)
+    case = {"class": "GCodeCore", "absolute": la, "relative": lb}
+    n = judge(R, case, A[1], B[1])
+    R.case({**case, "motions": n}, nontrivial=n >= 3, validated=False)
+    R.count(label, "core-pairs(impl+oracle only)", *["core-mode-by:" + u.split(":")[0] for u in A[2] + B[2]],
+            *["core-accepted:" + u.split(":", 1)[1] for u in A[2] + B[2] if u.startswith("look-alike:")],
+            *["core-seg:" + s[0] for s in path[3]])
 
 
 def lines_for(path, relative: bool, xf=None):
@@ -421,16 +580,11 @@ def machine_positions(recs):
     return seq
 
 
-def run_case(R, path, label, xf=None):
-    la, lb = lines_for(path, False, xf), lines_for(path, True, xf)
-    A = run_impl_any(la)
-    B = run_impl_any(lb)
-    sa, sb = machine_positions(A[1]), machine_positions(B[1])
-    case = {"absolute": la, "relative": lb}
-    outs_a = [parse_record(r)["out"] for r in A[1]]
-    outs_b = [parse_record(r)["out"] for r in B[1]]
-    if A[2].last_trace_error if hasattr(A[2], "last_trace_error") else None:
-        R.count("trace-error:" + str(A[2].last_trace_error))
+def judge(R, case, recs_a, recs_b):
+    """the oracle: the machine positions of the absolute and of the relative run, vertex by vertex; returns the number of motions"""
+    sa, sb = machine_positions(recs_a), machine_positions(recs_b)
+    outs_a = [parse_record(r)["out"] for r in recs_a]
+    outs_b = [parse_record(r)["out"] for r in recs_b]
     if len(sa) != len(sb):
         R.fail(case, f"absolute run makes {len(sa)} motions, relative run {len(sb)}", tag="count")
     else:
@@ -445,9 +599,20 @@ def run_case(R, path, label, xf=None):
             break
     if any(o != "ok" for o in outs_a) != any(o != "ok" for o in outs_b):
         R.fail(case, f"one run raised, the other did not: {set(outs_a)} vs {set(outs_b)}", tag="outcome")
+    return len(sa)
+
+
+def run_case(R, path, label, xf=None):
+    la, lb = lines_for(path, False, xf), lines_for(path, True, xf)
+    A = run_impl_any(la)
+    B = run_impl_any(lb)
+    case = {"absolute": la, "relative": lb}
+    if A[2].last_trace_error if hasattr(A[2], "last_trace_error") else None:
+        R.count("trace-error:" + str(A[2].last_trace_error))
+    nm = judge(R, case, A[1], B[1])
     if xf is not None:
         # the builder model has no transformer: implementation + oracle only
-        R.case({"absolute": la, "relative": lb, "motions": len(sa)}, nontrivial=len(sa) >= 3, validated=False)
+        R.case({"absolute": la, "relative": lb, "motions": nm}, nontrivial=nm >= 3, validated=False)
         R.count(label, "xf-pairs(impl+oracle only)", *["xf:" + o[0] for o in xf[0]],
                 *["seg:" + (s[0] if s[0] != "ctxshape" else f"ctxshape:{s[1][0]}") for s in path[1]])
         return
@@ -460,7 +625,7 @@ def run_case(R, path, label, xf=None):
                 R.disagree(f"builder[{','.join(bad)}]/{which}", {"history": lines[: i + 1]},
                            {k: parse_record(ir).get(k) for k in bad}, {k: parse_record(mr).get(k) for k in bad}, step=i)
                 break
-    R.case({"absolute": la, "relative": lb, "motions": len(sa)}, nontrivial=len(sa) >= 3)
+    R.case({"absolute": la, "relative": lb, "motions": nm}, nontrivial=nm >= 3)
     R.count(label, *["seg:" + (s[0] if s[0] != "ctxshape" else f"ctxshape:{s[1][0]}") for s in path[1]])
 
 
@@ -476,8 +641,17 @@ def run(R: core.Run):
                "toolpaths on a small lattice - implementation and oracle only")
     R.assumptions.append("under a transform the toolpath begins with an all-axes absolute-bypass move to its start (machine and "
                          "builder agree from there on); the model is not consulted for these pairs")
+    R.rule += ("; plus pairs of runs on the base class GCodeCore (moves, rapids, absolute-bypass moves, mode contexts, the run's mode "
+               "selected and re-selected by enum member / documented value / look-alike spellings the tree accepts) - implementation "
+               "and oracle only")
+    R.assumptions.append("on the base class a waypoint is handed over as an offset exactly while the object's distance_mode reports "
+                         "relative; a spelling refused with ValueError is skipped; the model is not consulted for these pairs")
     for ops, path in XF_CORPUS:
         run_case(R, path, "corpus-xf", (ops, None))
+    for path in CORE_CORPUS:
+        run_core_case(R, path, "corpus-core")
+    for _ in range(R.n(200, 4000)):
+        run_core_case(R, gen_core_path(R), "random-core")
     for _ in range(R.n(250, 5000)):
         run_case(R, gen_path(R), "random")
     r = R.rng
